@@ -12,7 +12,7 @@ RULE = ('random trees (depth <= 4, arity 2-5) over atoms that include keys diffe
         'operand order with the model. Exhaustive: all trees with <= 4 (quick) / <= 5 (thorough) leaves over {a, A, a[exc]} plus a '
         'WITH pair. Entry point used by comparisons: texts over tables with aliases, Licensing._parse_and_simplify(text, **flags) on a '
         'shared instance under every flag combination given explicitly, in random order, twice: the result has the truth table and no '
-        'license beyond those of parse(text, **flags) on a fresh instance (or fails the same way). non-trivial = not a single atom; '
+        'license beyond those of parse(text, **flags) on a fresh instance (or fails the same way); and on an expression object a table-less Licensing built from the same text (names as written: a key and its alias are two licenses there) the entry point keeps the truth table of that object. non-trivial = not a single atom; '
         'distinct by tree')
 ASSUMPTIONS = ['expressions are NOT-free (all a license expression can be)']
 
@@ -74,6 +74,25 @@ class Prop(BaseProp):
             ti, tr = drv.call_many([(T('ttable'), wt, atoms), (T('ttable'), gt, atoms)])
             if ti != tr:
                 return Verdict('spec', case, '_parse_and_simplify(%r): truth table differs from the parsed input' % (kw,), impl=gt, model=wt)
+        # an expression object built elsewhere (a table-less Licensing read the same text: every name as it is written, a key and
+        # its alias two different licenses): the entry point simplifies that object - same truth table over its own atoms, no
+        # other license - whatever the table of the instance that is asked
+        fo = impl.outcome(lambda: impl.le.Licensing().parse(text))
+        if P.is_ok(fo):
+            ft = impl.tree_c(fo[1])
+            for kw in case['order'][:3]:
+                got = impl.outcome(lambda: lic._parse_and_simplify(fo[1], **kw))
+                if not P.is_ok(got):
+                    return Verdict('spec', case, '_parse_and_simplify(object parsed elsewhere, %r) fails' % (kw,), impl=got[:2])
+                gt = impl.tree_c(got[1])
+                atoms = gen.atoms_of(ft)[:10]
+                if [a for a in gen.atoms_of(gt) if a not in gen.atoms_of(ft)]:
+                    return Verdict('spec', case, '_parse_and_simplify(object parsed elsewhere): result mentions a license absent from the object', impl=gt, model=ft)
+                ti, tr = drv.call_many([(T('ttable'), ft, atoms), (T('ttable'), gt, atoms)])
+                if ti != tr:
+                    return Verdict('spec', case, '_parse_and_simplify(object parsed elsewhere): truth table differs from the object', impl=gt, model=ft)
+            if impl.tree_c(fo[1]) != ft:
+                return Verdict('spec', case, '_parse_and_simplify changed the object it was given', impl=impl.tree_c(fo[1]), model=ft)
         return Verdict('ok', case, nontrivial=True, tags=['stream=entry-point'])
 
     def exhaustive(self, drv, index, nworkers, maxleaves):
